@@ -20,7 +20,8 @@ from harness.core import MachineryFailure, Outcome, Violation, run_tlc, scratch,
 
 DIRS = ['s1', 's2']
 NAMES = ['fa', 'fv', 'fe', 'fb']
-KIDS = ['00112233445566778899aabbccddee01']
+KIDS = ['00112233445566778899aabbccddee01',
+        '1ab45440532c439994dc5c5ad9584bac']       # the second is the key id of the encrypted fixture file 'fe'
 MPS = ['mm1', 'mz1']      # mz*: created with period duration "PT0S" (= the whole stream)
 
 
@@ -234,6 +235,9 @@ SCRIPTS = [
     # keys and encrypted media
     [('add_stream', 's1', ''), ('add_key', KIDS[0], ''), ('upload', 's1', 'fe'), ('upload', 's1', 'fv'), ('set_tref', 's1', 'fv'),
      ('delete_key', KIDS[0], ''), ('delete_media', 'fe', ''), ('delete_stream', 's1', '')],
+    # the key that an indexed encrypted file uses is deleted, then another key is added (it may reuse the primary key)
+    [('add_stream', 's1', ''), ('upload', 's1', 'fe'), ('delete_key', KIDS[1], ''), ('add_key', KIDS[0], ''), ('upload', 's1', 'fv'),
+     ('set_tref', 's1', 'fv'), ('delete_media', 'fe', '')],
     # multi-period stream life-cycle
     [('add_stream', 's1', ''), ('upload', 's1', 'fv'), ('set_tref', 's1', 'fv'), ('add_mps', 'mm1', 's1'), ('add_mps', 'mm1', 's1'),
      ('delete_mps', 'mm1', ''), ('delete_mps', 'mm1', ''), ('delete_stream', 's2', '')],
@@ -260,7 +264,7 @@ def random_history(rng: random.Random, n: int) -> list[tuple[str, str, str]]:
         elif op == 'edit_media':
             h.append((op, rng.choice(NAMES), rng.choice(['eng', 'xyz', 'fra'])))
         elif op in ('add_key', 'delete_key'):
-            h.append((op, KIDS[0], ''))
+            h.append((op, rng.choice(KIDS), ''))
         elif op == 'add_mps':
             h.append((op, rng.choice(MPS), rng.choice(DIRS)))
         else:
